@@ -5,6 +5,7 @@
    liveness and deep-copy clauses of the property. *)
 From Coq Require Import NArith ZArith List Bool.
 From AJ Require Import Model.Base Model.Value Model.Tree Proofs.TreeProofs.
+From AJ Require Import Model.Chain Proofs.ChainProofs.
 From AJ Require Import Model.Pool Model.Collection Proofs.PoolProofs Proofs.CollProofs.
 Local Open Scope N_scope.
 
@@ -154,6 +155,56 @@ Print Assumptions C04_clear_empties.
 Theorem C04_shrink_keeps_chain : forall g s, elements g (fst (fst (astep g s AShrink))) = elements g s.
 Proof. exact shrink_keeps. Qed.
 Print Assumptions C04_shrink_keeps_chain.
+
+(* ---- proxy chains  r[p1]...[pn] = x  /  r[p1]...[pn]  written in one expression ("operator[] at any depth") ----
+   Model/Chain.v composes them from the model's own steps (a lookup per level; for a write getOrAddMember /
+   getOrAddElement per level, then the set); the correspondence run executes exactly these extracted functions. *)
+
+(* a chained write is a run of steps — creations of missing levels followed by one set — and a chained read changes
+   nothing: every theorem about histories of steps therefore covers histories that use chains *)
+Theorem C04_chain_is_steps : forall w r path x,
+  exists ops, fst (chain_set w r path x) = run w ops /\
+    (ops = [] \/ exists cs e, ops = cs ++ [OSet e x] /\ Forall is_create cs).
+Proof. exact chain_set_is_run_strong. Qed.
+Print Assumptions C04_chain_is_steps.
+
+Theorem C04_chain_read_changes_nothing : forall w r path, fst (chain_get w r path) = w.
+Proof. exact chain_get_world. Qed.
+Print Assumptions C04_chain_read_changes_nothing.
+
+Theorem C04_invariant_reachable_with_chains : forall n hs, wfw (hrun (init_world n) hs).
+Proof. exact hreachable_wfw. Qed.
+Print Assumptions C04_invariant_reachable_with_chains.
+
+(* read your write, at any depth, through any mixture of keys and indices (missing levels are created, arrays padded):
+   either some existing level has the wrong kind — then nothing at all changes and the write reports what set() reports
+   on an unbound reference — or the write succeeds and the same path read back designates a value holding x *)
+Theorem C04_chain_read_your_write : forall w r path x, wfw w -> live w r = true ->
+  (chain_set w r path x = (w, RBool (set_on_unbound x)) /\ snd (chain_resolve w (Some r) path) = None) \/
+  (exists e, snd (chain_set w r path x) = RBool true /\
+             snd (chain_get (fst (chain_set w r path x)) r path) = RRef (Some e) /\
+             get (fst (chain_set w r path x)) e = Some (content_of_scalar x)).
+Proof. exact chain_set_then_get. Qed.
+Print Assumptions C04_chain_read_your_write.
+
+(* a chained write changes only its target: values neither inside nor around the starting reference keep their content,
+   and the other documents are untouched *)
+Theorem C04_chain_changes_only_its_target : forall w r path x j c, wfw w ->
+  get w j = Some c -> ~ inside_w w r j -> ~ inside_w w j r ->
+  get (fst (chain_set w r path x)) j = Some c.
+Proof. exact chain_set_frame. Qed.
+Print Assumptions C04_chain_changes_only_its_target.
+
+Theorem C04_chain_other_documents_untouched : forall w r path x d k, wfw w ->
+  doc_of w r = Some d -> k <> d ->
+  nth_error (docs (fst (chain_set w r path x))) k = nth_error (docs w) k.
+Proof. exact chain_set_other_doc. Qed.
+Print Assumptions C04_chain_other_documents_untouched.
+
+Example C04_chain_write_example :   (* doc0["a"][1]["b"] = 5 on an empty document *)
+  map to_jv (docs (fst (chain_set (init_world 1) 0 [PKey [97]; PIdx 1; PKey [98]] (SInt 5))))
+  = [JObj [([97], JArr [JNull; JObj [([98], JInt 5)]])]].
+Proof. vm_compute. reflexivity. Qed.
 
 (* the well-formedness hypothesis is met by a non-trivial reachable state: slot 1 removed and reused, a pool boundary crossed *)
 Example C04_chain_example :
